@@ -1207,12 +1207,12 @@ fn main() {
                 let Some(text) = render_doc(&run, d, flow, &ro) else { continue };
                 loc.add(if flow { "cases_flow" } else { "cases_block" });
                 check_input(&run, Entry::Str, &text, &mut loc);
-                // quick: every 5th case also through the reader / every 7th through from_multiple;
+                // quick: every 2nd case also through the reader / every 3rd through from_multiple;
                 // thorough: all three entry points for the <= 5-node space
-                if full && (!quick || (i + j) % 5 == 0) {
+                if full && (!quick || (i + j) % 2 == 0) {
                     check_input(&run, Entry::Reader, &text, &mut loc);
                 }
-                if full && (!quick || (i + j) % 7 == 0) {
+                if full && (!quick || (i + j) % 3 == 0) {
                     check_input(&run, Entry::Multi, &text, &mut loc);
                 }
                 if (i * 31 + j) % 40_009 == 0 {
@@ -1242,12 +1242,8 @@ fn main() {
                 let Some(text) = render_doc(&run, d, flow, &ro) else { continue };
                 loc.add("nested_family_cases");
                 check_input(&run, Entry::Str, &text, &mut loc);
-                if (i + j) % 3 == 0 {
-                    check_input(&run, Entry::Reader, &text, &mut loc);
-                }
-                if (i + j) % 3 == 1 {
-                    check_input(&run, Entry::Multi, &text, &mut loc);
-                }
+                check_input(&run, Entry::Reader, &text, &mut loc);
+                check_input(&run, Entry::Multi, &text, &mut loc);
                 if !flow && (i * 131 + j) % 97 == 0 {
                     nested_pool.lock().unwrap().push(text.clone());
                 }
@@ -1288,7 +1284,7 @@ fn main() {
     }
 
     // ---- C. random larger documents
-    let n_random = tier.pick(100_000, 1_200_000);
+    let n_random = tier.pick(200_000, 2_500_000);
     par_range(n_random, |i| {
         let mut rng = Rng::stream(run.seed, i as u64);
         let mut loc = Local::default();
@@ -1331,7 +1327,7 @@ fn main() {
     }
     let n_exh_streams = streams.len();
     run.count("streams_exhaustive", n_exh_streams as u64);
-    let n_rand_streams = tier.pick(20_000, 150_000);
+    let n_rand_streams = tier.pick(40_000, 400_000);
     par_range(n_exh_streams + n_rand_streams, |i| {
         let mut loc = Local::default();
         let mut rng = Rng::stream(run.seed ^ 0x5354_5245_414d, i as u64);
@@ -1409,7 +1405,7 @@ fn main() {
     let scope = format!(
         "(A) every base tree with <= {max_nodes} nodes over 5 scalar leaves + empty seq/map, undecorated and with every placement of <= 2 anchors (a,a / a,b) x every replacement of <= 2 leaves by aliases whose expansion is defined x merge-key variant{}, x {{block, flow}}; (A2) every sequence-only tree with 2..={nested_nodes} nodes (leaves x<i> / []) x every placement of <= 3 anchors x 1..=3 aliases with names drawn independently from {{a, b}} such that every alias resolves, x {{block, flow}}; each input of (A)/(A2) under: all limits off (report = independent count), and for each of the 8 counters limit = U and U-1 (events also U-2) with the hook monitor attached, and 3-5 ratio settings, through from_str ({} the reader and from_multiple entry points); (D) every stream of <= {exh_len} documents over a pool of {} documents ({} of them failing at the type level), each under every per-document threshold budget of every counter",
         if extra_nodes.is_some() { "; plus every 6-node base tree with <= 1 anchor x <= 1 alias (from_str)" } else { "" },
-        if quick { "a fixed 1/5 resp. 1/7 (A), 1/3 (A2) slice also through" } else { "(A, <= 5 nodes) also through, (A2) a fixed 1/3 slice each through" },
+        if quick { "(A2) and a fixed 1/2 resp. 1/3 slice of (A) also through" } else { "(A, <= 5 nodes) and (A2) also through" },
         pool.len(),
         pool.iter().filter(|d| d.contains(POISON)).count()
     );
